@@ -1,5 +1,7 @@
 import PyGam.Proofs.Dists
 import PyGam.Model.DistState
+import PyGam.Model.GamScale
+import PyGam.Gen.Decisions
 import PyGam.Gen.Tables
 import PyGam.Gen.Formulas
 /-!
@@ -276,6 +278,104 @@ theorem phi_after_history_supplied (fam : Family) (s : ℝ) (levels : ℝ) (hist
 estimate `8` are reported as `8`, not as the stale `1/4` -/
 example : phiAt (⟨false, some (1/4)⟩ : DistState ℝ) .normal 1 ⟨2, 1, fun _ => 1, fun _ => 2, fun _ => 0⟩ = some 8 := by
   rw [phiAt_stored_ignored]; norm_num [Finset.sum_range_succ, varFnW, varFn]
+
+/-! ### the scale of a fitted model across fits AND parameter changes (`Model/GamScale.lean`)
+
+"…, or the user-supplied scale when one is given": for a model the scale is *given* through the model-level `scale`
+parameter (`LinearGAM`, `GammaGAM`, `InvGaussGAM`, `ExpectileGAM`: `_validate_params` re-applies it at every fit by
+building a new distribution object) or through the distribution object handed to a generic `GAM`.  Whatever the earlier
+fits stored and whatever the parameter was before, the fit that follows a `set_params` reports the value that is
+supplied *now*, else the Pearson estimate of *its* data. -/
+
+theorem scaleHistory_append (g : GamScale ℝ) (fam : Family) (levels : ℝ) (h₁ h₂ : List (ScaleEvent ℝ)) :
+    scaleHistory g fam levels (h₁ ++ h₂) = scaleHistory (scaleHistory g fam levels h₁) fam levels h₂ := by
+  induction h₁ generalizing g with
+  | nil => rfl
+  | cons e es ih => simp only [List.cons_append, scaleHistory]; exact ih _
+
+/-- no event changes the class of the model -/
+theorem scaleHistory_cls (g : GamScale ℝ) (fam : Family) (levels : ℝ) (h : List (ScaleEvent ℝ)) :
+    (scaleHistory g fam levels h).cls = g.cls := by
+  induction h generalizing g with
+  | nil => rfl
+  | cons e es ih => simp only [scaleHistory]; rw [ih]; cases e <;> rfl
+
+/-- a class that recreates its distribution, scale parameter currently `some s`: the fit reports `s`
+(`statistics_['scale']` = `distribution.scale`), whatever state `g` the earlier history left -/
+theorem fit_scale_supplied (g : GamScale ℝ) (hg : g.cls.recreatesDist = true) (fam : Family) (levels s : ℝ)
+    (x : PhiData ℝ) (hs : g.scaleParam = some s) :
+    (scaleStep g fam levels (.fit x)).dist.scale = some (famScale fam s) := by
+  simp only [scaleStep, validateDist, hg, if_true, hs]
+  cases fam <;> simp [estimateStep, mkDist, DistState.init, famScale]
+
+/-- … scale parameter currently `None`: the fit reports the Pearson estimate of its own data -/
+theorem fit_scale_estimated (g : GamScale ℝ) (hg : g.cls.recreatesDist = true) (fam : Family)
+    (hfam : fam = .normal ∨ fam = .gamma ∨ fam = .invGauss) (levels : ℝ) (x : PhiData ℝ) (hs : g.scaleParam = none) :
+    (scaleStep g fam levels (.fit x)).dist.scale = some (phi none fam levels x.n x.edof x.w x.y x.mu) := by
+  simp only [scaleStep, validateDist, hg, if_true, hs]
+  rcases hfam with rfl | rfl | rfl <;> simp [estimateStep, mkDist, DistState.init, phiAt, phi]
+
+/-- histories: after ANY sequence of fits and parameter changes, `set_params(scale=s)` followed by a fit gives the
+supplied value (None → value, value → other value), resp. the Pearson estimate of that fit (value → None) -/
+theorem scale_after_set_and_fit (g : GamScale ℝ) (hg : g.cls.recreatesDist = true) (fam : Family)
+    (hfam : fam = .normal ∨ fam = .gamma ∨ fam = .invGauss) (levels : ℝ) (hist : List (ScaleEvent ℝ))
+    (s : Option ℝ) (x : PhiData ℝ) :
+    (scaleHistory g fam levels (hist ++ [.setScale s, .fit x])).dist.scale
+      = some (match s with
+              | some v => v
+              | none => (∑ i ∈ range x.n, (x.y i - x.mu i) ^ 2 / varFnW fam levels (x.w i) (x.mu i)) / ((x.n : ℝ) - x.edof)) := by
+  rw [scaleHistory_append]
+  generalize hg' : scaleHistory g fam levels hist = g'
+  have hc : g'.cls.recreatesDist = true := by rw [← hg', scaleHistory_cls]; exact hg
+  simp only [scaleHistory]
+  have hc' : (scaleStep g' fam levels (.setScale s)).cls.recreatesDist = true := hc
+  cases s with
+  | some v =>
+    rw [fit_scale_supplied _ hc' fam levels v x rfl]
+    rcases hfam with rfl | rfl | rfl <;> rfl
+  | none =>
+    rw [fit_scale_estimated _ hc' fam hfam levels x rfl, phi_estimated]
+
+/-- a class that keeps its distribution object (`GAM`, `LogisticGAM`, `PoissonGAM`): a fit is one more estimate of that
+object (`estimateStep`, the histories above), and the model-level `scale` attribute plays no role -/
+theorem fit_keeps_dist (g : GamScale ℝ) (hg : g.cls.recreatesDist = false) (fam : Family) (levels : ℝ)
+    (s : Option ℝ) (x : PhiData ℝ) :
+    (scaleStep (scaleStep g fam levels (.setScale s)) fam levels (.fit x)).dist = estimateStep g.dist fam levels x := by
+  simp [scaleStep, validateDist, hg]
+
+/-- … and there the scale is given (or withdrawn) by handing the model a new distribution object: after any history,
+`set_params(distribution=<Family>Dist(scale=s))` followed by a fit gives `s`, resp. the Pearson estimate of that fit -/
+theorem scale_after_dist_and_fit (g : GamScale ℝ) (hg : g.cls.recreatesDist = false) (fam : Family)
+    (hfam : fam = .normal ∨ fam = .gamma ∨ fam = .invGauss) (levels : ℝ) (hist : List (ScaleEvent ℝ))
+    (s : Option ℝ) (x : PhiData ℝ) :
+    (scaleHistory g fam levels (hist ++ [.setDist s, .fit x])).dist.scale
+      = some (match s with
+              | some v => v
+              | none => (∑ i ∈ range x.n, (x.y i - x.mu i) ^ 2 / varFnW fam levels (x.w i) (x.mu i)) / ((x.n : ℝ) - x.edof)) := by
+  rw [scaleHistory_append]
+  generalize hg' : scaleHistory g fam levels hist = g'
+  have hc : g'.cls.recreatesDist = false := by rw [← hg', scaleHistory_cls]; exact hg
+  simp only [scaleHistory, scaleStep, validateDist, hc, Bool.false_eq_true, if_false]
+  cases s with
+  | some v => rcases hfam with rfl | rfl | rfl <;> simp [estimateStep, mkDist, DistState.init]
+  | none =>
+    rw [← phi_estimated]
+    rcases hfam with rfl | rfl | rfl <;> simp [estimateStep, mkDist, DistState.init, phiAt, phi]
+
+/-- which classes re-apply their `scale` parameter at every fit is read off the source on every run
+(`Gen/Decisions.lean`, regenerated from the syntax tree of `pygam/pygam.py`) -/
+theorem gen_decision_recreates_dist :
+    Gen.classRecreatesDist =
+      [("GAM", some Heap.Cls.generic.recreatesDist), ("LinearGAM", some Heap.Cls.linear.recreatesDist),
+       ("LogisticGAM", some Heap.Cls.logistic.recreatesDist), ("PoissonGAM", some Heap.Cls.poisson.recreatesDist),
+       ("GammaGAM", some Heap.Cls.gamma.recreatesDist), ("InvGaussGAM", some Heap.Cls.invGauss.recreatesDist),
+       ("ExpectileGAM", some Heap.Cls.expectile.recreatesDist)] := by decide
+
+/-- non-vacuity: a GammaGAM fitted without a scale, then `set_params(scale=1/2)`, then fitted again reports `1/2` -/
+example (x₁ x₂ : PhiData ℝ) :
+    (scaleHistory (GamScale.new .gamma .gamma none) .gamma 1 [.fit x₁, .setScale (some (1/2)), .fit x₂]).dist.scale
+      = some (1/2) :=
+  scale_after_set_and_fit (GamScale.new .gamma .gamma none) rfl .gamma (Or.inr (Or.inl rfl)) 1 [.fit x₁] (some (1/2)) x₂
 
 /-! ### non-vacuity: the hypotheses are met by concrete non-trivial instances (incl. the boundary counts) -/
 example : validDom .binomial 5 5 (3/2) := by norm_num [validDom]
